@@ -747,10 +747,14 @@ class KernelSim:
         self.source_digest = __import__("hashlib").sha256(src.encode()).hexdigest()[:16]
         self.params = list(inspect.signature(py).parameters)
 
-    def run(self, sim, *args, **kwargs):
+    @staticmethod
+    def patched_globals(pyfunc, sim, memo):
+        """Globals of a kernel (or of an njit helper it calls) with numpy/numba replaced by the simulator's shims.
+        Helpers that are numba dispatchers are replaced by their Python source run under the same shims."""
         import numba
+        import types
 
-        g = dict(self.py.__globals__)
+        g = dict(pyfunc.__globals__)
         for k, v in list(g.items()):
             if v is np:
                 g[k] = NumpyShim(sim)
@@ -764,8 +768,20 @@ class KernelSim:
                 g[k] = lambda k_: 0
             elif v is numba.prange:
                 g[k] = range
-        g["__sim_parfor__"] = sim.parfor
+            elif hasattr(v, "py_func") and callable(getattr(v, "py_func", None)) and v.py_func is not pyfunc:
+                pf = v.py_func
+                if id(pf) not in memo:
+                    memo[id(pf)] = None  # recursion guard
+                    hg = KernelSim.patched_globals(pf, sim, memo)
+                    memo[id(pf)] = types.FunctionType(pf.__code__, hg, pf.__name__, pf.__defaults__, pf.__closure__)
+                if memo[id(pf)] is not None:
+                    g[k] = memo[id(pf)]
         g["int"] = nb_int
+        return g
+
+    def run(self, sim, *args, **kwargs):
+        g = self.patched_globals(self.py, sim, {})
+        g["__sim_parfor__"] = sim.parfor
         exec(self.code, g)
         wrap = lambda x: SimArray(sim, x, hot=False) if isinstance(x, np.ndarray) else x
         args = tuple(wrap(a) for a in args)
